@@ -58,7 +58,7 @@ type Case struct {
 
 func setup() {
 	c := ev.C()
-	c.Rule = "the client library driven through a scripted stub GRIBIClient: RIB-ack or FIB-ack mode, 1-6 requests of 1-20 operations over all entry kinds queued at drawn points, and an adversarial server schedule: results in any order across ids that keeps RIB-before-FIB per id (FAILED | RIB_PROGRAMMED | RIB then FIB_PROGRAMMED/FIB_FAILED | FIB_PROGRAMMED alone), arbitrarily grouped into responses, interleaved with the election and session-parameter responses; plus violating schedules (result for an unknown id, duplicate terminal result, multi-field response). Pending/Results/Status are polled concurrently by a sampler goroutine. Oracle (client model: queued -> pending -> terminal result): at every probe and at the end each handed-over id is in exactly one of pending / terminal-result, result sequences per id equal what the server sent, every result carries the operation type and key of its id, a RIB ack never completes an operation in FIB-ack mode, AwaitConverged returns nil iff nothing is pending and no error was recorded (checked in both directions) and a *ClientErr with the recorded errors after a violating schedule. Non-trivial = results reordered across ids or >=2 results in one response, or FIB-ack mode with the RIB and FIB acks of an id in different responses; distinct by FNV-64 of the case JSON."
+	c.Rule = "the client library driven through a scripted stub GRIBIClient: RIB-ack or FIB-ack mode, 1-6 requests of 1-20 operations over all entry kinds queued at drawn points, and an adversarial server schedule: results in any order across ids that keeps RIB-before-FIB per id (FAILED | RIB_PROGRAMMED | RIB then FIB_PROGRAMMED/FIB_FAILED/FAILED | FIB_PROGRAMMED alone), arbitrarily grouped into responses, interleaved with the election and session-parameter responses; plus violating schedules (result for an unknown id, duplicate terminal result, multi-field response). Pending/Results/Status are polled concurrently by a sampler goroutine. Oracle (client model: queued -> pending -> terminal result): at every probe and at the end each handed-over id is in exactly one of pending / terminal-result, result sequences per id equal what the server sent, every result carries the operation type and key of its id, a RIB ack never completes an operation in FIB-ack mode, AwaitConverged returns nil iff nothing is pending and no error was recorded (checked in both directions) and a *ClientErr with the recorded errors after a violating schedule. Non-trivial = results reordered across ids or >=2 results in one response, or FIB-ack mode with the RIB and FIB acks of an id in different responses; distinct by FNV-64 of the case JSON."
 	c.Assumptions = []string{"client.BusyLoopDelay is set to 1ms (exported tunable); negative AwaitConverged expectations use a 5ms context and only assert that nil is NOT returned"}
 }
 
@@ -429,8 +429,8 @@ func runCase(c Case) *ev.Verdict {
 				if !c.FIB && (stt == spb.AFTResult_FIB_PROGRAMMED || stt == spb.AFTResult_FIB_FAILED) {
 					continue
 				}
-				if stt == spb.AFTResult_FAILED && len(w.seq[r.ID]) > 0 {
-					continue
+				if stt == spb.AFTResult_FAILED && len(w.seq[r.ID]) > 0 && !(c.FIB && len(w.seq[r.ID]) == 1 && w.seq[r.ID][0] == spb.AFTResult_RIB_PROGRAMMED) {
+					continue // FAILED is terminal in every mode; in FIB-ack mode it may follow the RIB ack
 				}
 				if ri > maxReq {
 					maxReq = ri
@@ -598,7 +598,9 @@ func drawCase(rt *rapid.T) Case {
 	// plan per id: the statuses the server will send, in order
 	plan := map[uint64][]int32{}
 	for _, x := range ids {
-		switch k := rapid.IntRange(0, 9).Draw(rt, "verdict"); {
+		switch k := rapid.IntRange(0, 10).Draw(rt, "verdict"); {
+		case k == 10 && c.FIB:
+			plan[x] = []int32{int32(spb.AFTResult_RIB_PROGRAMMED), int32(spb.AFTResult_FAILED)}
 		case k == 0:
 			plan[x] = []int32{int32(spb.AFTResult_FAILED)}
 		case !c.FIB:
